@@ -9,16 +9,23 @@ import json, os, re, shutil, subprocess, sys, glob
 VERIF = os.path.dirname(os.path.dirname(os.path.abspath(__file__)))
 
 def main():
-    items = sys.argv[1:]
+    args = sys.argv[1:]
+    rnd = "out"
+    if "--round" in args:
+        rnd = args[args.index("--round") + 1]
+        del args[args.index("--round"):args.index("--round") + 2]
+    items = args
     if not items:
-        for d in sorted(glob.glob("/tmp/mut/C*/out/m*")):
+        for d in sorted(glob.glob("/tmp/mut/C*/%s/m*" % rnd)):
             p = d.split("/")[3]; n = d.split("/")[-1][1:]
             items.append("%s:%s" % (p, n))
+    tagr = "" if rnd == "out" else "r" + rnd[3:]
     for it in items:
         p, n = it.split(":")
-        src = "/tmp/mut/%s/out/m%s" % (p, n)
+        src = "/tmp/mut/%s/%s/m%s" % (p, rnd, n)
         if not os.path.exists(os.path.join(src, "patch.diff")):
             continue
+        n = tagr + n
         dst = os.path.join(VERIF, "seeded", "%s-m%s" % (p, n))
         os.makedirs(dst, exist_ok=True)
         shutil.copy(os.path.join(src, "patch.diff"), os.path.join(dst, "patch.diff"))
